@@ -26,6 +26,8 @@ CORPORA = {
                    family="router", trace="RouterTrace.tla", tracecfg="RouterTrace.cfg", shards=16),
     "config": dict(gen="MCConfig.tla", cfg={"quick": "config_quick.cfg", "thorough": "config_thorough.cfg"},
                    family="config", trace="ConfigTrace.tla", tracecfg="ConfigTrace.cfg"),
+    "restbind": dict(gen="MCRestBind.tla", cfg={"quick": "restbind_quick.cfg", "thorough": "restbind_thorough.cfg"},
+                     family="restbind", trace="RestBindTrace.tla", tracecfg="RestBindTrace.cfg"),
     "stream_headers": dict(gen="MCStream.tla", cfg={"quick": "stream_headers_quick.cfg", "thorough": "stream_headers_thorough.cfg"},
                            family="stream", trace="StreamTrace.tla", tracecfg="StreamTrace.cfg"),
 }
@@ -40,6 +42,7 @@ PROPS = {
     "C04": dict(corpora=["stream_errors"], prefix="C04."),
     "C05": dict(corpora=["stream_headers"], prefix="C05."),
     "C06": dict(corpora=["router"], prefix="C06."),
+    "C07": dict(corpora=["restbind"], prefix="C07."),
     "C08": dict(corpora=["stream_chunks"], prefix="C08.",
                 design=[("MCFraming.tla", "framing_%s_fixed.cfg" % p) for p in ("R1", "R2", "R3", "R4", "R5", "R5e")]),
     "C09": dict(corpora=["stream_faults"], prefix="C09."),
@@ -68,7 +71,7 @@ def generic_class(o):
 
 def scenario_class(o):
     """Abstract class of a replayed scenario, for counting distinct non-trivial cases (not a verdict)."""
-    if "scn" not in o:
+    if "scn" not in o or "disp" not in o:
         return generic_class(o)
     s = o.get("scn") or {}
     cl, hd = s.get("cl", {}), s.get("hd", {})
@@ -193,7 +196,7 @@ def check(pid, tier, seed, work, t0):
                 if o["sid"] in r["bad"]:
                     obs_by_sid[o["sid"]] = o
                 if len(samples) < 3 and nontrivial(o) and evaluations % 97 == 1:
-                    if "scn" in o:
+                    if "scn" in o and "disp" in o:
                         samples.append(dict(scenario=o["scn"], observed=dict(dispatch=o["disp"], client=o["cl"], ret=o["ret"])))
                     else:
                         samples.append(o)
@@ -235,7 +238,7 @@ def check(pid, tier, seed, work, t0):
         for name, sid, tags, o in violations:
             s = (o or {}).get("scn") or {}
             d = (o or {}).get("disp") or []
-            if o is not None and "scn" not in o:
+            if o is not None and ("scn" not in o or "disp" not in o):
                 for t in tags:
                     hist[(t,) + tuple(str(o.get(k))[:40] for k in sorted(o) if k not in ("sid", "ev"))[:8]] += 1
                 continue
